@@ -12,7 +12,10 @@ MODULES = ['Netpoll.Props.C16']
 MANIFEST = dict(
     text='Lean 4 theorems: for every source/sink script and every sequence of Reader/Writer calls the adapter model (zcReader, zcWriter, ioReader, ioWriter over the C01 spec queue) '
          'delivers exactly the source stream once and in order, surfaces the source error, and hands the sink exactly the flushed stream across Flushes. '
-         'The model is tied to nocopy_readwriter.go by a differential run on scripted io.Reader/io.Writer behaviours (short, zero-byte, negative, data+error, short writes).',
+         'The model is tied to nocopy_readwriter.go by a differential run on scripted io.Reader/io.Writer behaviours (short, zero-byte, negative, data+error, short writes); '
+         'a stream oracle judges the replies of all four adapters (zcReader, zcWriter, NewIOReader / NewIOWriter over a LinkBuffer, NewIOWriter over NewWriter over a short-writing sink). '
+         'The caller of an io.Writer reuses (overwrites) its slice as soon as Write has returned, as the io.Writer contract allows; every zero-copy result of the reader adapter is kept and re-compared after every later call '
+         'until Release, with the harness allocator poisoning freed blocks (long streams read piecewise with rare Release included).',
     note='Rests on the C01 refinement (LinkBuffer behaves as the spec queue inside Contract) and on its tie. Correspondence is sampling. '
          'Source positions are keyed pseudo-random bytes so reordering/duplication is visible.',
     technique='Lean 4 invariant proofs over an adapter model + differential correspondence with scripted io.Reader/io.Writer', design='§6 C16')
@@ -175,7 +178,8 @@ def run(rep):
         problems += r['problems']; finals |= r['finals']; n += r['seqs']
         for k, v in r['hist'].items(): hist[k] = hist.get(k, 0) + v
     rep.cov.update(evaluations=n, distinct_nontrivial=len(finals),
-                   rule='one adapter per sequence (zcReader / zcWriter / ioReader / ioWriter) behind a scripted source or sink (per-call counts 0..>4KB, negative, data with error, short writes); '
+                   rule='one adapter per sequence (zcReader / zcWriter / ioReader / ioWriter over a LinkBuffer / ioWriter over zcWriter) behind a scripted source or sink (per-call counts 0..>4KB, negative, data with error, short writes; '
+                        'one reader sequence in three over a long stream with rare Release); the io.Writer caller overwrites its slice after every Write; zero-copy results of the reader are re-compared until Release (poisoning allocator); '
                         'random Reader/Writer calls; every reply compared with the Lean adapter model and judged by a stream oracle; distinct_nontrivial = distinct final reply lines',
                    samples=results[0]['samples'], op_histogram=hist, traces_validated_against_impl=n)
     rep.assumptions += ['C01 refinement: inside Contract a LinkBuffer behaves as the spec queue (checked by ./check C01)',
